@@ -50,6 +50,17 @@ Proof.
     change (zsum (tk :: t)) with (tk + zsum t). ring.
 Qed.
 
+(** the upper tail is the lower tail of the mirrored distribution *)
+Corollary count_le_rev t n u : Forall (fun x => 0 <= x) t ->
+  count_le (rev t) n (2 * (n * (zsum t - n)) - u) = count_ge t n u.
+Proof.
+  intros Ht. unfold count_le, count_ge. rewrite (count_if_rev t Ht). apply count_if_ext.
+  intros w. destruct (Z.leb_spec (2 * (n * (zsum t - n)) - w) (2 * (n * (zsum t - n)) - u)), (Z.leb_spec u w); lia.
+Qed.
+
+Lemma total_rev t n : total (rev t) n = total t n.
+Proof. unfold total. now rewrite zsum_rev. Qed.
+
 (** ** palindromic tie vectors: the distribution is symmetric *)
 Theorem count_if_palindrome t P n : Forall (fun x => 0 <= x) t -> rev t = t ->
   count_if P t n = count_if (fun w => P (2 * (n * (zsum t - n)) - w)) t n.
